@@ -424,3 +424,46 @@ def chain_cases_file(items):
     out.append("Definition MC := Eval vm_compute in ccases_bad %s 0." % G.clist("cc%d" % i for i in range(len(items))))
     out.append("Print MC.")
     return "\n".join(out)
+
+
+# ----------------------------------------------------------------- stateBuffer.export: key-collision structure
+def export_cases(rng, n, rep=40):
+    """sets of raw 32-byte state keys written in ONE block: ids sharing a common 8-, 16-, 31-byte
+    prefix (differing only after it), ids differing only in the first byte, random ids, and mixtures;
+    each set is exported / committed `rep` times from the same prior state so that the Go map order varies"""
+    out = []
+    for i in range(n):
+        k = rng.randrange(2, 9)
+        plen = rng.choice([0, 1, 8, 8, 8, 16, 31, 31])
+        prefix = bytes(rng.randrange(256) for _ in range(plen))
+        keys = set()
+        while len(keys) < k:
+            keys.add(prefix + bytes(rng.randrange(256) for _ in range(32 - plen)))
+        if rng.random() < 0.4:        # plus a few unrelated ids and a second cluster
+            p2 = bytes(rng.randrange(256) for _ in range(8))
+            for _ in range(rng.randrange(1, 4)):
+                keys.add(p2 + bytes(rng.randrange(256) for _ in range(24)))
+            keys.add(bytes(rng.randrange(256) for _ in range(32)))
+        ks = [x.hex() for x in keys]
+        rng.shuffle(ks)
+        out.append({"id": "exp%d-p%d" % (i, plen), "keys": ks, "rep": rep})
+    return out
+
+
+EXPORT_HEAD = """From Coq Require Import NArith List Bool.
+From Verif Require Import Gov.Model Determ.Export.
+Import ListNotations.
+Fixpoint keys_eqb (a b : list (list N)) : bool :=
+  match a, b with [], [] => true | x :: a', y :: b' => cand_eqb x y && keys_eqb a' b' | _, _ => false end.
+Definition case_ok (c : list (list N) * list (list N)) : bool :=
+  keys_eqb (map fst (export (map (fun k => (k, @nil N)) (fst c)))) (snd c).
+Fixpoint bad (l : list (list (list N) * list (list N))) (i : nat) : list nat :=
+  match l with [] => [] | c :: r => if case_ok c then bad r (S i) else i :: bad r (S i) end.
+"""
+
+
+def export_cases_file(pairs):
+    """pairs: (input key list, observed exported order), hex strings"""
+    b = lambda h: "[" + ";".join(str(x) for x in bytes.fromhex(h)) + "]%N"
+    items = ["(%s,%s)" % (G.clist(b(k) for k in ins), G.clist(b(k) for k in obs)) for ins, obs in pairs]
+    return EXPORT_HEAD + "Definition ME := Eval vm_compute in bad %s 0.\nPrint ME.\n" % G.clist(items)
